@@ -682,10 +682,6 @@ AXES_CONTAINERS = {"shape", "axes", "periodic", "axes_bounds", "axes_coords", "d
 RANK_WORDS = ("rank",)
 
 
-def _enclosing_functions(ix_funcs_by_node: dict, chain: list[ast.AST]) -> list[ast.AST]:
-    return [n for n in reversed(chain) if isinstance(n, (ast.FunctionDef, ast.Lambda))]
-
-
 class Scope:
     """assignments visible at an expression: the chain of enclosing function bodies"""
 
@@ -1204,7 +1200,7 @@ class SymEval:
         if isinstance(v, sp.Integer):
             return v != 0
         if isinstance(v, PyList):
-            return self.truth(sp.Ne(v.length(), 0)) if False else F("truth")(v.term())
+            return F("truth")(v.term())
         if isinstance(v, tuple):
             return len(v) > 0
         if isinstance(v, sp.Basic):
@@ -1465,6 +1461,12 @@ def havoc(node: ast.AST, p: Path) -> None:
             old = p.env[name]
             sym = sp.Symbol(f"{name}?{k}")
             p.env[name] = PyList(base=sym) if isinstance(old, PyList) else sym
+
+
+def has_havoc(v) -> bool:
+    """does a value depend on something a skipped (out-of-grammar) statement assigned?"""
+    t = _as_term(v)
+    return isinstance(t, sp.Basic) and any("?" in x.name for x in t.free_symbols)
 
 
 @dataclass
